@@ -437,7 +437,9 @@ class C02(Prop):
     rule = ("random LExpr trees (size<=7; leaves t/f/e with 12-35 concrete realisations each, 15% non-boolean leaves of 22+9 value kinds incl. type values, timestamps, durations) rendered to CEL "
             "fully parenthesised or with the minimal parentheses of the grammar (flat && / || chains, right-nested ?:, !!x), all/exists as index ladder or over "
             "element values; every 3-operand chain over the five classes, long chains (<=60 operands) and lists (<=40 elements); programs over variables compiled "
-            "once and evaluated under 3-8 activations; both runners; all 5x5 / 5^3 operand tuples through celtypes.logical_* with 14 kinds of non-boolean value (incl. classes and a function); `c ? x : y` against the selected branch evaluated alone for a pool of 67 branch expressions of every outcome kind; "
+            "once and evaluated under 3-8 activations; both runners; all 5x5 / 5^3 operand tuples through celtypes.logical_* with 14 kinds of non-boolean value (incl. classes and a function); `c ? x : y` against the selected branch evaluated alone for a pool of 71 branch expressions of every outcome kind; "
+            "round 4: leaf / value realisations that are a member suffix on a parenthesised ?: / || / && / macro result, operands wrapped in outcome-preserving "
+            "member expressions, all/exists over lists of mixed element types whose members are equal for Python but not for CEL (0.0/-0.0/0/0u/false, 1.0/1/1u/true) with 4 predicates that tell them apart; "
             "thorough adds every and/or/not tree of depth<=2 over {t,f,e}. non-trivial = distinct tree containing at least one error or non-boolean leaf")
 
     def generate(self, rng, tier):
